@@ -802,6 +802,26 @@ impl BuildJob<'_> {
     }
 }
 
+/// The target's name without trailing "/" and "/.": `redo sub/` asks for the target `sub`.
+///
+/// The database and the rule search clean the name anyway, but the file operations (is it a
+/// file of the user's? the final rename) went by the name as written -- and "x/" names
+/// nothing when x is a regular file.  The user's file looked absent, the rule ran, the rename
+/// failed, the failure made the name a target of ours: the next `redo x` replaced the file.
+fn without_trailing_separators(t: &RedoPath) -> &RedoPath {
+    let mut s = t.as_str();
+    loop {
+        if s.len() > 1 && s.ends_with('/') {
+            s = &s[..s.len() - 1];
+        } else if s.len() > 2 && s.ends_with("/.") {
+            s = &s[..s.len() - 2];
+        } else {
+            break;
+        }
+    }
+    unsafe { RedoPath::from_str_unchecked(s) }
+}
+
 /// Build the given list of targets, if necessary.
 ///
 /// Builds in parallel using whatever [`JobServerHandle`] tokens can be obtained.
@@ -891,7 +911,7 @@ where
             // by database id too, since the lock registry allows one Lock per id.
             let mut seen_ids: HashSet<i64> = HashSet::new();
             for i in target_order.iter().copied() {
-                let t = targets[i].as_ref();
+                let t = without_trailing_separators(targets[i].as_ref());
                 if t.is_empty() {
                     log_err!("cannot build the empty target (\"\").\n");
                     result.set(Err(RedoErrorKind::InvalidTarget(t.into()).into()));
